@@ -85,8 +85,8 @@ Definition ack_step (lg : list N) (ak : list (N * nat)) (e : oevent) : list (N *
   | OAck c n => match first_pos c lg with Some j => aput n (Nat.max (S j) (nget n ak)) ak | None => ak end
   | _ => ak
   end.
-(* the label of the snapshot OfflineState reads (the last one written; 0 when there is none) *)
-Definition lastlbl (labels : list nat) : nat := match rev labels with [] => O | l :: _ => l end.
+(* the label of the snapshot OfflineState reads: the highest in the store (0 when there is none) *)
+Definition newlbl (labels : list nat) : nat := fold_right Nat.max O labels.
 
 Definition model_step (cmds : list logop) (lg : list N) (ak : list (N * nat)) (cl : cluster) (e : oevent) : cluster * bool :=
   match e with
@@ -139,7 +139,7 @@ Definition model_step (cmds : list logop) (lg : list N) (ak : list (N * nat)) (c
          read side around CommitOp: nothing is acknowledged at the member between its final snapshot and its stop. The model has
          the lock: the stop is enabled only when everything acknowledged with committer n lies below the label of the snapshot n
          leaves on disk *)
-      (cl, Nat.leb (nget n ak) (lastlbl (map fst (snaps (getn (nn n) cl)))))
+      (cl, Nat.leb (nget n ak) (newlbl (map fst (snaps (getn (nn n) cl)))))
   end.
 Fixpoint model_run (cmds : list logop) (lg : list N) (ak : list (N * nat)) (cl : cluster) (es : list oevent) : bool :=
   match es with
@@ -180,7 +180,9 @@ Definition spec_step (cmds : list logop) (lg : list N) (ak : list (N * nat)) (sn
       (lg, supd (nn n) (fun s => mksnode (s_applied s) (s_hist s) None
                                    (match s_pending s with Some l => s_labels s ++ [l] | None => s_labels s end)) sn, true)
   | ORestore n src k lbl =>
-      (lg, supd (nn n) (fun s => mksnode (nn lbl) (s_hist s) (s_pending s) (s_labels s)) sn, Nat.leb (nn lbl) (length lg))
+      (lg, supd (nn n) (fun s => mksnode (nn lbl) (s_hist s) (s_pending s)
+                                         (if Nat.eqb (nn src) (nn n) then s_labels s else s_labels s ++ [nn lbl])) sn,   (* an install is written into n's store *)
+       Nat.leb (nn lbl) (length lg))
   | ORestart n => (lg, supd (nn n) (fun s => mksnode 0 (s_hist s) None (s_labels s)) sn, true)
   | OAck c n =>                                                                         (* acknowledged: in the sequence and visible on the committer *)
       (lg, sn, acked lg (s_applied (sgetn (nn n) sn)) c)
@@ -192,9 +194,9 @@ Definition spec_step (cmds : list logop) (lg : list N) (ak : list (N * nat)) (sn
   | OTrk n cs =>
       (lg, sn, multiset_eqb (map proj_call (expected_calls ops (s_hist (sgetn (nn n) sn)))) (map proj_call cs))
   | OOffline n l =>
-      (lg, sn, match rev (s_labels (sgetn (nn n) sn)) with
+      (lg, sn, match s_labels (sgetn (nn n) sn) with
                | [] => match l with [] => true | _ => false end
-               | lb :: _ => pins_eqb (map snd (replay (firstn lb ops))) l end)
+               | lbs => pins_eqb (map snd (replay (firstn (newlbl lbs) ops))) l end)
   | ORecovered n m0 o =>                                                                (* acknowledged ops survive the crash *)
       (lg, supd (nn n) (fun s => mksnode 0 (s_hist s) None (s_labels s)) sn,
        match o with
@@ -206,7 +208,7 @@ Definition spec_step (cmds : list logop) (lg : list N) (ak : list (N * nat)) (sn
                            existsb (fun m => pins_eqb (map snd (replay (firstn m ops))) l) (seq a (S (length lg - a)))
                | None => false end)
   | OStopped n =>                                                                       (* a clean stop has lost nothing acknowledged at the member *)
-      (lg, sn, Nat.leb (nget n ak) (lastlbl (s_labels (sgetn (nn n) sn))))
+      (lg, sn, Nat.leb (nget n ak) (newlbl (s_labels (sgetn (nn n) sn))))
   end.
 Fixpoint spec_run (cmds : list logop) (lg : list N) (ak : list (N * nat)) (sn : list snode) (es : list oevent) : bool :=
   match es with
@@ -234,8 +236,10 @@ Definition is_S19 (cmds : list logop) : bool :=
   existsb (fun op => match pin_of op with Some p => negb (wire_ok p) | None => false end) cmds.
 (* S23: a snapshot that was persisted after its replica had been given something (an entry, or another snapshot) past the
    FSM.Snapshot that labelled it is "late": Persist wrote the state it found when it ran. The shape: some replica restores a late
-   snapshot (install or start-up), or OfflineState is read on a replica whose newest snapshot is late.
-   pend: replicas between FSM.Snapshot and Persist, with "was given something since"; cnt: snapshots persisted per replica;
+   snapshot (install or start-up), or OfflineState is read on a replica whose store holds a late snapshot (the recogniser does not
+   know labels, hence not which snapshot of the store is the newest).
+   pend: replicas between FSM.Snapshot and Persist, with "was given something since"; cnt: snapshots in the store of each replica
+   (persisted by it or installed on it: (n, k) names the k-th of n's store);
    late: the late snapshots (replica, number). *)
 Definition cnt_of (n : N) (cnt : list (N * N)) : N := match aget n cnt with Some x => x | None => 0 end.
 Definition is_late (late : list (N * N)) (n k : N) : bool := existsb (fun x => (fst x =? n) && (snd x =? k)) late.
@@ -250,8 +254,9 @@ Definition late_step (pend : list (N * bool)) (cnt late : list (N * N)) (e : oev
       let k := cnt_of n cnt in
       (adel n pend, aput n (k + 1) cnt, match aget n pend with Some true => (n, k) :: late | _ => late end, false)
   | ORestart n => (adel n pend, cnt, late, false)
-  | ORestore n src k _ => (touch n pend, cnt, late, is_late late src k)
-  | OOffline n _ => (pend, cnt, late, let k := cnt_of n cnt in (0 <? k) && is_late late n (k - 1))
+  | ORestore n src k _ =>
+      (touch n pend, (if Nat.eqb (nn src) (nn n) then cnt else aput n (cnt_of n cnt + 1) cnt), late, is_late late src k)
+  | OOffline n _ => (pend, cnt, late, existsb (fun x => fst x =? n) late)
   | _ => (pend, cnt, late, false)
   end.
 Fixpoint late_restore (pend : list (N * bool)) (cnt : list (N * N)) (late : list (N * N)) (es : list oevent) : bool :=
